@@ -209,3 +209,26 @@ Definition learn_minibatch_idxs (N B : nat) (perms : list (list nat)) : list (li
 Definition norm_adv (m s : list Q -> Q) (l : list Q) : list Q := map (fun x => (x - m l) * s l) l.
 Definition minibatch_body (m s : list Q -> Q) (idx : list nat) (a b c : list Z) (d e f : list Q) : list row6 :=
   combine6 (gather 0%Z idx a) (gather 0%Z idx b) (gather 0%Z idx c) (norm_adv m s (gather 0 idx d)) (gather 0 idx e) (gather 0 idx f).
+
+(* ------------------------------------------------------------------------------------------ *)
+(* 6. number kinds in stack_experiences                                                        *)
+(* ------------------------------------------------------------------------------------------ *)
+(* A rollout list may hold entries of different Python / numpy types (int, bool, int64 first; float32 / float64 later).
+   np.stack(exp) converts all of them to the common type: integers stay integers only if every entry is one.
+   The rest of this model works on the VALUES (rationals); [stack_nums] is why that is legitimate. *)
+Inductive num := NInt (z : Z) | NFloat (q : Q).
+Definition num_val (x : num) : Q := match x with NInt z => inject_Z z | NFloat q => q end.
+Definition is_float (x : num) : bool := match x with NFloat _ => true | NInt _ => false end.
+Definition to_float (x : num) : num := NFloat (num_val x).
+Definition stack_nums (l : list num) : list num := if existsb is_float l then map to_float l else l.
+
+(* a stacking that preallocates with the type of the FIRST entry and fills (seeded change u1): later entries are cast to
+   that type, a fractional value into an integer array is truncated toward zero *)
+Definition trunc (q : Q) : Z := Z.quot (Qnum q) (Zpos (Qden q)).
+Definition cast_like (first x : num) : num :=
+  match first with
+  | NInt _ => NInt (match x with NInt z => z | NFloat q => trunc q end)
+  | NFloat _ => to_float x
+  end.
+Definition stack_first_kind (l : list num) : list num :=
+  match l with [] => [] | f :: _ => map (cast_like f) l end.
